@@ -1,5 +1,65 @@
-import Netpol.Model.Cache
+import Netpol.Model.Pipeline
+import Netpol.Tie.C12
+/-! C12 — analysis is total: any input yields a result or an error, never a crash.
+
+What a theorem can carry here: (1) the model of the pipeline is a total function whose value is always a report or a
+classified error (Lean definitions cannot crash, so this is the statement that the model *has* no third outcome), and
+(2) every dereference of an optional pointer of an API object in the analysed packages is dominated by a nil check — a
+fact table regenerated from the Go source on every run (`Netpol.Gen.derefSites`, `tools/goextract`).
+What it cannot carry: panics inside the Kubernetes decoding libraries, index-out-of-range and nil-map writes elsewhere;
+those are the P leg of the check (`mut` and `baddoc` families: structural mutations of valid manifests through the real
+entry points under `recover`). The property is therefore labelled partial in MANIFEST.json. -/
 namespace Netpol.Properties.C12
-open Netpol
+open Netpol Pipeline
+
+/-- a report: `(ok …)` -/
+def IsReport (s : Sexp) : Prop := ∃ xs, s = .list (.atom "ok" :: xs)
+/-- a classified error: `(err CLASS)` -/
+def IsError (s : Sexp) : Prop := ∃ c, s = .list [.atom "err", .atom c]
+
+theorem errSx_isError (e : Err) : IsError (WorldDriver.errSx e) := ⟨_, rfl⟩
+
+/-- `list` on any set of objects, any focus: a report or a classified error -/
+theorem list_total (objs : List Obj) (focus : String) :
+    IsReport (WorldDriver.runList objs focus) ∨ IsError (WorldDriver.runList objs focus) := by
+  unfold WorldDriver.runList
+  simp only []
+  repeat' split
+  all_goals first
+    | exact .inr (errSx_isError _)
+    | exact .inl ⟨_, rfl⟩
+
+/-- the whole pipeline (good documents plus documents of any scan class, with or without stop-on-first-error):
+a report or a classified error -/
+theorem pipeline_total (objs : List Obj) (classes : List ScanClass) (stop : Bool) :
+    IsReport (outcome objs classes stop) ∨ IsError (outcome objs classes stop) := by
+  unfold outcome
+  simp only []
+  split
+  · exact .inr ⟨_, rfl⟩
+  · split
+    · exact .inl ⟨_, rfl⟩
+    · exact list_total objs ""
+
+/-- every dereference of an optional API field found in the current source is dominated by a nil check, or is one of the
+reasoned exceptions of `Tie.C12.derefAllowlist` -/
+theorem optional_fields_guarded :
+    ∀ s ∈ Gen.derefSites, s.2.2.2.2 = true ∨
+      Tie.C12.derefAllowlist.any (fun a => a.1 == s.2.1 && a.2.1 == s.2.2.1) = true :=
+  Tie.C12.deref_sites_guarded
+
+/-- the optional fields named in the property (ownerReferences without controller, workloads without a pod template,
+Ingress rules without http) and the absent BaselineAdminNetworkPolicy are guarded in the current source -/
+theorem named_optional_fields_guarded :
+    ("pod.go", "PodFromCoreObject", "ownerRef.Controller", "*", true) ∈ Gen.derefSites ∧
+    ("pod.go", "PodsFromWorkloadObject", "obj.Spec.Template", "*", true) ∈ Gen.derefSites ∧
+    ("ingress_analyzer.go", "IngressAnalyzer.getK8sIngressServices", "rule.IngressRuleValue.HTTP", ".Paths", true) ∈ Gen.derefSites ∧
+    ("resources.go", "PolicyEngine.deleteBaselineAdminNetworkPolicy", "pe.baselineAdminNetpol", ".Name", true) ∈ Gen.derefSites :=
+  Tie.C12.former_crash_sites_guarded
+
+/-- the model of workload conversion handles every optional field: an owner of kind Node is ignored, a missing replica
+count means one pod -/
+example : (WorldParse.pObj (.list [.atom "wl", .atom "Deployment", .atom "n", .atom "w", .atom "-", .list [.atom "labels"],
+    .list [.atom "ports"]])).isSome = true := by decide
 
 end Netpol.Properties.C12
